@@ -205,7 +205,10 @@ impl Gen {
                         3 => cap + self.rng.below(3),
                         4 => self.rng.below(4 * (cap + 1)),
                         5 => u64::MAX - self.rng.below(3),
-                        6 => (i64::MAX as u64) / *self.rng.pick(&[1u64, 2, 16, 32, 33]) + self.rng.below(3),
+                        // at and above isize::MAX / size_of::<T>(): must report CapacityOverflow (requests
+                        // that pass the layout checks but exceed physical memory are left to the
+                        // allocator-refusal sweeps, where the refusal is scripted on both sides)
+                        6 => (i64::MAX as u64) / (r.layout().0.max(1) as u64) + self.rng.below(3),
                         _ => (1u64 << (3 + self.rng.below(10))) / 8 * 7 + self.rng.below(3),
                     };
                     format!("a try_reserve {}", n)
@@ -229,6 +232,7 @@ impl Gen {
                     format!("a drain {} 0", self.rng.below(6))
                 }
             }
+            "par" => crate::par_runner::next_op(self, r),
             p if p.starts_with("table") => crate::gen_ext::next_table(self, r),
             p if p.starts_with("set") => crate::gen_ext::next_set(self, r),
             p if p.starts_with("entry") => crate::gen_ext::next_entry(self, r),
@@ -264,6 +268,15 @@ impl Gen {
                         self.phase = 2;
                         self.saturate(r)
                     }
+                }
+            }
+            2 if d.growth_left == 0 && self.rng.chance(1, 4) => {
+                // capacity()==len() with tombstones: the state where shrink_to must not trust capacity()
+                self.phase = 3;
+                match self.rng.below(3) {
+                    0 => "a shrink_to_fit".to_string(),
+                    1 => format!("a shrink_to {}", self.rng.below(d.items as u64 + 3)),
+                    _ => format!("a shrink_to {}", d.items as u64 + self.rng.below(2 * cap as u64 + 2)),
                 }
             }
             2 => {
